@@ -141,3 +141,9 @@ def run(ctx, rep):
     eb = ctx.fn_body(D + '::exists')
     ek = any(c.name.split('::')[-1] == 'contains_key' for c in eb.calls)
     rep.ob('R18.d', D + '::exists', 'membership test on the id set', ek, None, None if ek else 'exists() no longer tests membership')
+
+    # ------------------------------------------------------------ R18.f the id cache is built from the deduplication settings only
+    rep.rule('R18.f', 'constructor: a partition builds its id cache from the configured deduplication capacity and expiry (an id is remembered for as long as configured, not for as long as some other setting says)', floor=1, analysis='A9')
+    from props import storage_forms as sf_
+    sf_.check_constructors(ctx, rep, 'R18.f', {'Partition': ('message_deduplicator',)})
+
